@@ -1,0 +1,130 @@
+//go:build verif
+
+package s2
+
+// Thin wrappers exporting EdgeQuery / distance-target internals to the verification
+// harness (property C08). Add-only; no behaviour of the package changes.
+
+import "github.com/golang/geo/s1"
+
+// VerifC08Target is the (unexported) distanceTarget interface.
+type VerifC08Target = distanceTarget
+
+// VerifC08CellEdges is one index cell with the (shapeID, edgeID) pairs clipped to it,
+// in the order processEdges visits them.
+type VerifC08CellEdges struct {
+	ID    CellID
+	Edges [][2]int32
+}
+
+// VerifC08IndexCells lists the cells of a built index in CellID order.
+func VerifC08IndexCells(index *ShapeIndex) []VerifC08CellEdges {
+	var out []VerifC08CellEdges
+	for it := index.Iterator(); !it.Done(); it.Next() {
+		ce := VerifC08CellEdges{ID: it.CellID()}
+		for _, clipped := range it.IndexCell().shapes {
+			for j := 0; j < clipped.numEdges(); j++ {
+				ce.Edges = append(ce.Edges, [2]int32{clipped.shapeID, int32(clipped.edges[j])})
+			}
+		}
+		out = append(out, ce)
+	}
+	return out
+}
+
+// VerifC08EdgeDist is target.updateDistanceToEdge(edge, fromChordAngle(limit)).
+func VerifC08EdgeDist(t distanceTarget, edge Edge, limit s1.ChordAngle) (s1.ChordAngle, bool) {
+	d, ok := t.updateDistanceToEdge(edge, t.distance().fromChordAngle(limit))
+	return d.chordAngle(), ok
+}
+
+// VerifC08CellDist is target.updateDistanceToCell(cell, fromChordAngle(limit)).
+func VerifC08CellDist(t distanceTarget, cell Cell, limit s1.ChordAngle) (s1.ChordAngle, bool) {
+	d, ok := t.updateDistanceToCell(cell, t.distance().fromChordAngle(limit))
+	return d.chordAngle(), ok
+}
+
+// VerifC08Sentinels returns zero(), infinity() of the target's distance type.
+func VerifC08Sentinels(t distanceTarget) (zero, infinity s1.ChordAngle) {
+	return t.distance().zero().chordAngle(), t.distance().infinity().chordAngle()
+}
+
+func VerifC08CapBound(t distanceTarget) Cap                      { return t.capBound() }
+func VerifC08MaxBruteForceIndexSize(t distanceTarget) int        { return t.maxBruteForceIndexSize() }
+func VerifC08SetMaxError(t distanceTarget, e s1.ChordAngle) bool { return t.setMaxError(e) }
+func VerifC08LeafCellID(p Point) CellID                          { return cellIDFromPoint(p) }
+func VerifC08MinUpdateDistanceMaxError(d s1.ChordAngle) float64  { return minUpdateDistanceMaxError(d) }
+
+// VerifC08ContainingShapes lists the ids of the shapes visitContainingShapes visits (never stopping early).
+func VerifC08ContainingShapes(t distanceTarget, index *ShapeIndex) []int32 {
+	var ids []int32
+	t.visitContainingShapes(index, func(containingShape Shape, targetPoint Point) bool {
+		ids = append(ids, index.idForShape(containingShape))
+		return true
+	})
+	return ids
+}
+
+// VerifC08EdgePairMinDistance / MaxDistance export the edge-pair distance updates.
+func VerifC08EdgePairMinDistance(a0, a1, b0, b1 Point, minDist s1.ChordAngle) (s1.ChordAngle, bool) {
+	return updateEdgePairMinDistance(a0, a1, b0, b1, minDist)
+}
+func VerifC08EdgePairMaxDistance(a0, a1, b0, b1 Point, maxDist s1.ChordAngle) (s1.ChordAngle, bool) {
+	return updateEdgePairMaxDistance(a0, a1, b0, b1, maxDist)
+}
+
+// VerifC08QueryState reports what the last findEdgesInternal call of the query decided and cached.
+type VerifC08QueryState struct {
+	UsedOptimized               bool // the optimized path was chosen (index size / UseBruteForce)
+	IndexNumEdges               int
+	IndexNumEdgesLimit          int
+	UseConservativeCellDistance bool
+	AvoidDuplicates             bool
+	IndexCovering               []CellID
+	IndexCellIsNil              []bool
+	InitialCells                []CellID
+	DistanceLimit               s1.ChordAngle // the limit at the end of the search
+}
+
+func VerifC08State(e *EdgeQuery) VerifC08QueryState {
+	st := VerifC08QueryState{
+		IndexNumEdges:               e.indexNumEdges,
+		IndexNumEdgesLimit:          e.indexNumEdgesLimit,
+		UseConservativeCellDistance: e.useConservativeCellDistance,
+		AvoidDuplicates:             e.avoidDuplicates,
+		IndexCovering:               append([]CellID(nil), e.indexCovering...),
+		InitialCells:                append([]CellID(nil), e.initialCells...),
+	}
+	for _, c := range e.indexCells {
+		st.IndexCellIsNil = append(st.IndexCellIsNil, c == nil)
+	}
+	if e.target != nil && e.opts != nil {
+		st.UsedOptimized = !(e.opts.useBruteForce || e.indexNumEdges < e.target.maxBruteForceIndexSize()+1)
+	}
+	if e.distanceLimit != nil {
+		st.DistanceLimit = e.distanceLimit.chordAngle()
+	}
+	return st
+}
+
+// VerifC08ClearInitialCells forgets the initial cells of an earlier search so that a later
+// VerifC08State shows whether the finite-limit branch of initQueue ran.
+func VerifC08ClearInitialCells(e *EdgeQuery) { e.initialCells = nil }
+
+// VerifC08SetTargetIndexOptions forwards to the index targets' unexported setters.
+func VerifC08SetTargetIncludeInteriors(t distanceTarget, b bool) {
+	switch m := t.(type) {
+	case *MinDistanceToShapeIndexTarget:
+		m.setIncludeInteriors(b)
+	case *MaxDistanceToShapeIndexTarget:
+		m.setIncludeInteriors(b)
+	}
+}
+func VerifC08SetTargetUseBruteForce(t distanceTarget, b bool) {
+	switch m := t.(type) {
+	case *MinDistanceToShapeIndexTarget:
+		m.setUseBruteForce(b)
+	case *MaxDistanceToShapeIndexTarget:
+		m.setUseBruteForce(b)
+	}
+}
